@@ -648,8 +648,37 @@ static void gen_c08(Builder &b, bool thorough) {
 		b.task = ntasks == 1 ? 0 : 1 + (int)(rng.below(ntasks));
 		b.init_dataset(0, 0, calls[i].first, calls[i].second);
 	}
+	// second epoch (a third of the partial plans): the SAME cache object is re-keyed and some ranges are initialised again -
+	// exact repeats of earlier calls, tiny calls inside the 4-item group of an earlier call, sub-ranges. Every item must
+	// then hold the value of the key of the LAST call that covered it (anything remembered from the first epoch is stale).
+	bool second_epoch = !whole && !calls.empty() && rng.chance(1, 3);
+	if (second_epoch) {
+		b.phase = 2; b.task = 0;
+		int k2 = b.rnd_key(); if (k2 == b.C[0].key) k2 = (k2 + 1) % 3;
+		if (rng.chance(1, 5)) { // release + re-allocate instead of re-keying in place (same slot; the heap policy decides the addresses)
+			uint32_t f = b.C[0].flags; b.release_cache(0); b.alloc_cache(0, f, rng.chance(1, 2) ? (seam::HP_REUSE_BIG | seam::HP_REUSE_SMALL) : b.rnd_heap());
+		}
+		b.init_cache(0, k2);
+		b.phase = 3;
+		int n2 = (int)rng.range(1, 4);
+		for (int i = 0; i < n2; ++i) {
+			auto base = calls[rng.below(calls.size())];
+			uint64_t st = base.first, cnt = base.second;
+			uint64_t m = rng.below(3);
+			if (m == 1 || cnt == 0) { // tiny call inside the 4-item group at the start or the end of the earlier call
+				uint64_t g = (rng.chance(1, 2) || cnt < 4) ? base.first : base.first + cnt - (cnt % 4 ? cnt % 4 : 4);
+				st = g + rng.below(3); cnt = 1 + rng.below(3);
+				if (st >= N) st = N - 1;
+				if (st + cnt > N) cnt = N - st;
+			} else if (m == 2 && cnt > 2) { uint64_t a = rng.below(cnt - 1); st = base.first + a; cnt = 1 + rng.below(cnt - a); }
+			b.task = ntasks == 1 ? 0 : 1 + (int)(rng.below(ntasks));
+			// concurrent calls of one phase must be disjoint: an overlapping second-epoch call goes to the task of the first one it meets
+			for (auto &o : b.plan.ops) if (o.kind == INIT_DATASET && o.phase == 3 && o.start < st + cnt && st < o.start + o.count) b.task = o.task;
+			b.init_dataset(0, 0, st, cnt);
+		}
+	}
 	// if only one distinct task got ops it simply runs inline
-	b.phase = 2; b.task = 0;
+	b.phase = 4; b.task = 0;
 	{ Op &o = b.emit(DS_CHECK); o.d = 0; }
 	if (whole) {
 		b.D[0].complete = true; b.D[0].key = b.C[0].key; b.D[0].cflags = b.C[0].flags;
@@ -726,6 +755,12 @@ ops::Plan generate(Context &gc, uint64_t run_seed, uint64_t index) {
 				Op &o = b.emit(HASH); o.v = 0; o.input = (int)(i % 4); o.env = (int64_t)e;
 			}
 			b.plan.note = "envscan";
+		} else if (gc.mode == "threads") {
+			// 2-4 simulated threads hashing at the same time, each call entered under its own MXCSR: the caller's
+			// environment is per thread, so whatever the library saves and restores must be per call
+			b.attach_env = true;
+			gen_c14(b, thorough);
+			b.plan.note = "threads";
 		} else { ho.env = true; ho.checks = false; history(b, ho); }
 	}
 	else if (P == "C15") { ho.faults = true; ho.checks = false; history(b, ho); }
